@@ -127,7 +127,7 @@ class C14(Prop):
                'where a statistic is undefined (0/0: sample variance of one value, skewness of equal values) both null and NaN are '
                'accepted',
                'describe()/summary(): count, mean, stddev, min, max are compared; the approximate percentiles are outside the property; '
-               'an empty table (no row to discover columns from) is not exercised for describe')
+               'describe() / summary() of a table without rows report count 0 and no other statistic')
 
     def setup(self, ctx):
         from pysparkling import Context
@@ -162,7 +162,7 @@ class C14(Prop):
     def gen(self, rng, tier):
         if rng.random() < .08:
             vtypes = [rng.choice(['int', 'dbl', 'str']) for _ in range(rng.randint(1, 3))]
-            _, rows = self.gen_table(rng, 0, False, vtypes, rng.randint(1, 6))
+            _, rows = self.gen_table(rng, 0, False, vtypes, rng.choice([0, 1, 2, 3, 4, 5, 6]))     # the table without any row included
             return {'kind': rng.choice(['describe', 'summary']), 'vtypes': vtypes, 'layout': self.assign(rng, rows)}
         nkeys = rng.choice([0, 1, 1, 1, 2, 2])
         pivot = None
@@ -212,6 +212,7 @@ class C14(Prop):
         for kind in ('describe', 'summary'):
             t = [[S(1), S(1.5), S('b')], [None, S(2.0), S('a')], [S(3), None, None], [S(5), S(0.5), S('a')]]
             out.append({'kind': kind, 'vtypes': ['int', 'dbl', 'str'], 'layout': [t[:1], [], t[1:3], t[3:]]})
+            out.append({'kind': kind, 'vtypes': ['int', 'str'], 'layout': [[], [], []]})
         if tier == 'thorough':
             out += self.exhaustive()
         return out
@@ -347,7 +348,7 @@ class C14(Prop):
                             'parts': [[{'k': [], 'v': row} for row in p] for p in case['layout']]})
         if not r['spec_equal']:
             return Mismatch('Lean: partitioned aggregation differs from direct aggregation', None, None, 'model-spec')
-        sts = r['groups'][0]['st']
+        sts = r['groups'][0]['st'] if r['groups'] else None     # no row at all: every column has count 0 and no other statistic
         try:
             df = self.make_df(vnames, case['vtypes'], case['layout'])
             out = df.describe() if case['kind'] == 'describe' else df.summary()
@@ -358,8 +359,15 @@ class C14(Prop):
         if cols != ['summary'] + vnames:
             return Mismatch(case['kind'] + ': columns', cols, ['summary'] + vnames, 'C14:%s:columns' % case['kind'], relation='spec')
         for j, t in enumerate(case['vtypes']):
-            st = sts[j]
             numeric = t in ('int', 'dbl')
+            if sts is None:
+                ctx.note('describe-of-an-empty-table')
+                for stat, w in {'count': 0, 'mean': None, 'stddev': None, 'min': None, 'max': None}.items():
+                    if stat not in rows or len(rows[stat]) != len(vnames) or not self.cell_matches(rows[stat][j], w if w is not None or stat not in ('mean', 'stddev') else UNDEF, stat):
+                        return Mismatch('%s() of a table without rows: %s of column %s (count 0, no other statistic)' % (case['kind'], stat, vnames[j]),
+                                        rows.get(stat), w, 'C14:%s:empty' % case['kind'], relation='spec')
+                continue
+            st = sts[j]
             want = {'count': project('count', st, t),
                     'mean': project('avg', st, t) if numeric else None,
                     'stddev': project('stddev', st, t) if numeric else None,
